@@ -1,6 +1,7 @@
 package main
 
 import (
+	"fmt"
 	"strings"
 
 	"verifharness/lib"
@@ -226,7 +227,14 @@ func (g *scopeGen) stat() {
 		if a == b {
 			a = "G1"
 		}
-		g.line(a + ", " + b + " = gfun(" + g.exp(0) + ")")
+		if g.r.Chance(1, 2) {
+			// a global whose only definition is the second target
+			b = fmt.Sprintf("GM%d", len(g.lines))
+			g.line(a + ", " + b + " = gfun(" + g.exp(0) + ")")
+			g.line("print(" + b + ")")
+		} else {
+			g.line(a + ", " + b + " = gfun(" + g.exp(0) + ")")
+		}
 	case 26:
 		// closures in the limit and the step of a numeric for (several lines each)
 		n := g.name()
